@@ -177,6 +177,18 @@ def report(pid, tier, seed, P, mod, gens, meta, errors, t_start, args, jobs):
     replay_results = {}
     if failed and rc != 3:
         replay_results = run_replayer(pid, mod, failed, seed, tier)
+    # bounded stand-in, always on: the property's native harness searches for a failing input on the real code even when every
+    # obligation is discharged (clauses that no contract covers yet are decided only up to the harness's bound; never counted as proved)
+    bounded = dict(ran=False, found=False)
+    if not failed and rc == 0 and os.path.exists(os.path.join(VERIF, "replay", f"{pid}.py")) and not args.only and not os.environ.get("PYVC_NO_BOUNDED"):
+        pseudo = dict(task="bounded-search", func="<whole property>", name="bounded-native-search", line=0, verdict="none", model=None,
+                      expect="unsat", decisions=[], backend="-", stage="-", kind="bounded", note="")
+        t_b = time.time()
+        rr_b = run_replayer(pid, mod, [pseudo], seed, tier)
+        r_b = rr_b.get(obligation_key(pseudo))
+        bounded = dict(ran=True, found=bool(r_b and r_b.get("found")), wall_s=round(time.time() - t_b, 1))
+        if bounded["found"]:
+            engine_witness.append((dict(pseudo, note="all obligations were discharged: the failing input exercises a clause no contract covers"), r_b["replay"]))
     for m in failed:
         key = obligation_key(m)
         rr = replay_results.get(key)
@@ -207,7 +219,10 @@ def report(pid, tier, seed, P, mod, gens, meta, errors, t_start, args, jobs):
         lines.append(f"  obligation {m['func']} :: {m['name']} (task {m['task']}, line {m['line']}): verdict {m['verdict']} by {m['backend']}")
     for m, path in engine_witness:
         lines.append(f"VIOLATION property={pid} replay={path}")
-        lines.append(f"  found by the native witness search (bounded) while the engine could not read {m['func']} (task {m['task']}): {m['note'][:160]}")
+        if m["kind"] == "bounded":
+            lines.append(f"  found by the bounded native search on the real code; {m['note']}")
+        else:
+            lines.append(f"  found by the native witness search (bounded) while the engine could not read {m['func']} (task {m['task']}): {m['note'][:160]}")
     if engine_witness:
         rc = 1
     if violations and rc == 0:
@@ -216,6 +231,7 @@ def report(pid, tier, seed, P, mod, gens, meta, errors, t_start, args, jobs):
         rc = 2
     for m in undecided:
         lines.append(f"UNDECIDED property={pid} obligation {m['func']} :: {m['name']} (task {m['task']}): {m['verdict']} {m.get('reason', '')}")
+    P.bounded_run = bounded
     write_evidence(pid, tier, seed, P, gens, meta, real, canaries, failed, violations, undecided, known_hits, t_start, rc)
     discharged = sum(1 for m in real if m["verdict"] == m["expect"])
     print(f"[{pid}] tier={tier} tasks={len(gens)} obligations={len(real)} discharged={discharged} "
@@ -355,7 +371,8 @@ def write_evidence(pid, tier, seed, P, gens, meta, real, canaries, failed, viola
             failed=[dict(obligation=obligation_key(m), verdict=m["verdict"], line=m["line"]) for m in failed],
             known_findings=[dict(id=k["id"], obligation=obligation_key(m)) for k, m in known_hits],
             undecided=[obligation_key(m) for m in undecided],
-            bounded=P.bounded,
+            bounded=P.bounded + [dict(kind="native witness search on the real code (replay/%s.py), seeded small-scope inputs; decides nothing on a pass" % pid,
+                                      **getattr(P, "bounded_run", {}))],
             uncovered_clauses=P.uncovered,
             extraction_drops=["docstrings", "type annotations", "logging.* / logger.* / warnings.warn / print calls",
                               "text of exception messages and f-strings (exception class kept)"],
